@@ -96,6 +96,38 @@ SPECS = [
 ]
 
 
+# calc's helpers: the two pre-checks over the WBS as given (start / end are the user's values: static) and the reset of
+# the summaries on the clone (writes the dynamic part)
+STATIC_DATES = {'predecessors': ('(k_preds (gett w %s))', NATS), 'children': ('(k_children (gett w %s))', NATS),
+                'start': ('(k_start (gett w %s))', OPTZ), 'end': ('(k_end (gett w %s))', OPTZ)}
+SPECS += [
+    dict(file='schedule.py', cls=None, func='_validate_graph_isolation', coq_name='src_validate_graph_isolation',
+         obj_type='nat', params={}, ignored_params=('project',), signature=[('w', '(list itask)')], ret='unit',
+         loops='fold', or_default=True, static_attrs=STATIC_DATES,
+         expr_rewrites={'project.tasks': ('(members w)', NATS), 'pr.wbs != project': ('(k_ext (gett w ${pr}))', 'bool')}),
+    dict(file='schedule.py', cls='ForwardScheduler', func='__check_no_end_dates_in_future', coq_name='src_check_no_end_dates_in_future',
+         obj_type='nat', params={}, ignored_params=('project',), signature=[('cfg', 'config'), ('w', '(list itask)')], ret='unit',
+         loops='fold', static_attrs=STATIC_DATES, locals={'now': 'Z'},
+         expr_rewrites={'project.tasks': ('(members w)', NATS), 'datetime.now()': ('(now cfg)', 'Z')}),
+    dict(file='schedule.py', cls='ForwardScheduler', func='__prepare_tasks', coq_name='src_prepare_tasks',
+         heap='ds', heap_type='(list dyn)', heap_get='getdl', heap_upd='dupd', obj_type='nat', state='ds',
+         params={'ds': ('ds', '(list dyn)')}, ignored_params=('project',),
+         signature=[('w', '(list itask)'), ('ds', '(list dyn)')], ret='unit', loops='fold',
+         static_attrs={'children': ('(k_children (gett w %s))', NATS)},
+         obj_attrs={'start': ('d_start', OPTZ), 'end': ('d_end', OPTZ), 'estimate': ('d_est', OPTZ), 'spent': ('d_spent', OPTZ)},
+         obj_writes={'start': 'with_start', 'end': 'with_end', 'estimate': 'with_est', 'spent': 'with_spent'},
+         expr_rewrites={'project.tasks': ('(members w)', NATS)}),
+    dict(file='schedule.py', cls='BackwardScheduler', func='__prepare_tasks', coq_name='src_prepare_tasks_bwd',
+         heap='ds', heap_type='(list dyn)', heap_get='getdl', heap_upd='dupd', obj_type='nat', state='ds',
+         params={'ds': ('ds', '(list dyn)')}, ignored_params=('project',),
+         signature=[('w', '(list itask)'), ('ds', '(list dyn)')], ret='unit', loops='fold',
+         static_attrs={'children': ('(k_children (gett w %s))', NATS)},
+         obj_attrs={'start': ('d_start', OPTZ), 'end': ('d_end', OPTZ), 'estimate': ('d_est', OPTZ), 'spent': ('d_spent', OPTZ)},
+         obj_writes={'start': 'with_start', 'end': 'with_end', 'estimate': 'with_est', 'spent': 'with_spent'},
+         expr_rewrites={'project.tasks': ('(members w)', NATS)}),
+]
+
+
 def emit(repo):
     texts = [HEADER]
     problems = []
